@@ -27,6 +27,7 @@ pub fn streams() -> Vec<Stream> {
         Stream { name: "C19.quat", gen: gen_quat, imp: imp_quat, oracle: oracle_quat },
         Stream { name: "C19.mat", gen: gen_mat, imp: imp_mat, oracle: oracle_mat },
         Stream { name: "C19.sweep", gen: gen_sweep, imp: imp_sweep, oracle: oracle_sweep },
+        Stream { name: "C19.misc", gen: gen_misc, imp: imp_misc, oracle: oracle_misc },
     ]
 }
 
@@ -1173,9 +1174,10 @@ fn oracle_quat(t: &mut Toks, _tier: Tier) -> Result<OracleOut, String> {
                 format!("Quat::multiply on finite operands overflows: panics in this build (debug_assertions={DA}), returns non-finite components without debug assertions"),
             ));
         } else if op == "axis" && !v3(&f).length_squared().is_finite() {
+            // repaired by `fix: from_axis_angle returns identity when |axis|^2 is not finite`; a panic here is a regression
             o.fails.push((
-                "C19.quat.axis-overflow-profile-dependent".into(),
-                format!("Quat::from_axis_angle on a finite axis whose squared length overflows: det_sqrt_f32(inf)=0, 1/0=inf, so the quaternion is non-finite/NaN without debug assertions and the call panics with them (this build: debug_assertions={DA})"),
+                "C19.quat.axis-overflow.panic".into(),
+                format!("Quat::from_axis_angle on a finite axis whose squared length overflows panics (debug_assertions={DA}): det_sqrt_f32(inf)=0, 1/0=inf, NaN quaternion"),
             ));
         } else {
             o.fails.push((format!("C19.quat.panic-on-finite.{op}"), "Quat operation panicked on finite operands".into()));
@@ -1197,11 +1199,17 @@ fn oracle_quat(t: &mut Toks, _tier: Tier) -> Result<OracleOut, String> {
             ));
         } else if op == "axis" && !v3(&f).length_squared().is_finite() {
             o.fails.push((
-                "C19.quat.axis-overflow-profile-dependent".into(),
-                format!("Quat::from_axis_angle on a finite axis whose squared length overflows returns {} in this build (debug_assertions={DA}), panics with debug assertions", ftoks(&r)),
+                "C19.quat.axis-overflow.non-finite".into(),
+                format!("Quat::from_axis_angle on a finite axis whose squared length overflows returns {} (debug_assertions={DA})", ftoks(&r)),
             ));
         } else {
             o.fails.push((format!("C19.quat.non-finite.{op}"), format!("{op} on finite operands returned {}", ftoks(&r))));
+        }
+    }
+    if op == "axis" && fin_in && !v3(&f).length_squared().is_finite() {
+        o.tags.push("axis-len-sq-overflow".into());
+        if ftoks(&r) != ftoks(&Quat::identity().to_array()) {
+            o.fails.push(("C19.quat.axis-overflow.not-identity".into(), format!("documented policy is the identity, got {}", ftoks(&r))));
         }
     }
     if op == "tomat" {
@@ -1275,8 +1283,8 @@ fn oracle_mat(t: &mut Toks, _tier: Tier) -> Result<OracleOut, String> {
     let Ok(r) = r else {
         if fin_in && op == "axisangle" && !v3(&f).length_squared().is_finite() {
             o.fails.push((
-                "C19.quat.axis-overflow-profile-dependent".into(),
-                format!("Mat4::rotation_axis_angle on a finite axis whose squared length overflows panics in this build (debug_assertions={DA}) and is non-finite without debug assertions"),
+                "C19.quat.axis-overflow.panic".into(),
+                format!("Mat4::rotation_axis_angle on a finite axis whose squared length overflows panics (debug_assertions={DA})"),
             ));
         } else if fin_in {
             o.fails.push((format!("C19.mat.panic-on-finite.{op}"), "Mat4 operation panicked on finite operands".into()));
@@ -1395,5 +1403,117 @@ fn oracle_sweep(t: &mut Toks, _tier: Tier) -> Result<OracleOut, String> {
     o.tags.push(format!("sweep-patterns={n}"));
     o.tags.push(format!("sweep-trig-checked={trig_checked}"));
     o.nontrivial = true;
+    Ok(o)
+}
+
+// ------------------------------------------------------------------ C19.misc: the rest of the public API
+// `cmp a b` (F32Scalar Ord/PartialOrd/PartialEq = f32::total_cmp on stored values), `clamp v lo hi`
+// (warp_math::clamp, assert!(min <= max) in every profile), `deg v` / `rad v` (deg_to_rad / rad_to_deg).
+
+const MISC_OPS: [(&str, usize); 4] = [("cmp", 2), ("clamp", 3), ("deg", 1), ("rad", 1)];
+fn gen_misc(rng: &mut Rng, tier: Tier) -> Vec<String> {
+    let mut out: Vec<String> = vec![
+        "cmp 80000000 00000000".into(), "cmp 7fc00000 7f800000".into(), "cmp ffc00001 7fc00000".into(),
+        "cmp 00000001 80000001".into(), "cmp ff800000 ff7fffff".into(),
+        "clamp 80000000 00000000 3f800000".into(), "clamp 00000000 80000000 80000000".into(),
+        "clamp 7fc00001 00000000 3f800000".into(), "clamp 3f800000 7fc00000 3f800000".into(),
+        "clamp 3f800000 40000000 3f800000".into(), "clamp 7f800000 ff800000 7f800000".into(),
+        "deg 43b40000".into(), "rad 40c90fdb".into(), "deg 7f7fffff".into(), "rad 7f7fffff".into(), "rad 00000001".into(),
+    ];
+    for i in 0..n_cases(tier, 400, 40_000) {
+        let (op, n) = MISC_OPS[i % MISC_OPS.len()];
+        let mut v: Vec<u32> = (0..n).map(|_| if rng.chance(1, 3) { rand_f32(rng) } else { rand_operand(rng) }).collect();
+        if op == "cmp" && rng.chance(1, 4) {
+            v[1] = v[0] ^ [0u32, 0x8000_0000, 1][rng.below(3) as usize];
+        }
+        if op == "clamp" && rng.chance(2, 3) {
+            // mostly valid ranges: order the two bounds numerically
+            let (a, b) = (f32::from_bits(v[1]), f32::from_bits(v[2]));
+            if a > b {
+                v.swap(1, 2);
+            }
+        }
+        out.push(format!("{op} {}", v.iter().map(|b| h8(*b)).collect::<Vec<_>>().join(" ")));
+    }
+    out
+}
+fn parse_misc<'a>(t: &mut Toks<'a>) -> Result<(&'a str, Vec<u32>), String> {
+    let op = t.next()?;
+    let n = MISC_OPS.iter().find(|(o, _)| *o == op).map(|(_, n)| *n).ok_or_else(|| format!("bad misc op {op}"))?;
+    let v = (0..n).map(|_| f32_tok(t)).collect::<Result<Vec<_>, _>>()?;
+    end(t)?;
+    Ok((op, v))
+}
+fn ord_i(o: std::cmp::Ordering) -> i32 {
+    o as i32
+}
+fn run_misc(op: &str, v: &[u32]) -> String {
+    let f = |i: usize| f32::from_bits(v[i]);
+    match op {
+        "cmp" => {
+            let (a, b) = (sc(v[0]), sc(v[1]));
+            format!("{} {}", ord_i(a.cmp(&b)), u8::from(a == b))
+        }
+        "clamp" => ftok(warp_math::clamp(f(0), f(1), f(2)).to_bits()),
+        "deg" => ftok(warp_math::deg_to_rad(f(0)).to_bits()),
+        _ => ftok(warp_math::rad_to_deg(f(0)).to_bits()),
+    }
+}
+fn imp_misc(t: &mut Toks) -> Result<String, String> {
+    let (op, v) = parse_misc(t)?;
+    Ok(catch_unwind(AssertUnwindSafe(|| run_misc(op, &v))).unwrap_or_else(|_| "panic".into()))
+}
+fn oracle_misc(t: &mut Toks, _tier: Tier) -> Result<OracleOut, String> {
+    let (op, v) = parse_misc(t)?;
+    let mut o = OracleOut::default();
+    o.tags.push(format!("misc:{op}"));
+    o.nontrivial = true;
+    let f = |i: usize| f32::from_bits(v[i]);
+    let r = catch_unwind(AssertUnwindSafe(|| run_misc(op, &v)));
+    let g: Vec<u32> = v.iter().map(|x| std::hint::black_box(*x)).collect();
+    let r2 = catch_unwind(AssertUnwindSafe(|| run_misc(op, &g)));
+    if r.as_ref().ok() != r2.as_ref().ok() {
+        o.fails.push((format!("C19.misc.nondeterministic.{op}"), "two evaluations differ".into()));
+    }
+    match op {
+        "cmp" => {
+            let (a, b) = (sc(v[0]), sc(v[1]));
+            let (ba, bb) = (bits(a), bits(b));
+            let c = a.cmp(&b);
+            if (c == std::cmp::Ordering::Equal) != (ba == bb) || (a == b) != (ba == bb) {
+                o.fails.push(("C19.misc.cmp.eq-not-bitwise".into(), format!("stored {ba:08x} vs {bb:08x}: cmp={c:?} eq={}", a == b)));
+            }
+            if b.cmp(&a) != c.reverse() || a.partial_cmp(&b) != Some(c) {
+                o.fails.push(("C19.misc.cmp.not-antisymmetric".into(), format!("{ba:08x} vs {bb:08x}")));
+            }
+            let (fa, fb) = (a.to_f32(), b.to_f32());
+            if !fa.is_nan() && !fb.is_nan() && fa.partial_cmp(&fb) != Some(c) {
+                o.fails.push(("C19.misc.cmp.not-numeric".into(), format!("{ba:08x} vs {bb:08x}: total order {c:?}, numeric {:?}", fa.partial_cmp(&fb))));
+            }
+            if ba == bb {
+                o.tags.push("cmp-equal".into());
+            }
+        }
+        "clamp" => {
+            let valid = f(1) <= f(2);
+            match (&r, valid) {
+                (Err(_), true) => o.fails.push(("C19.misc.clamp.panic-on-valid-range".into(), "clamp panicked with min <= max".into())),
+                (Ok(_), false) => o.fails.push(("C19.misc.clamp.no-panic-on-invalid-range".into(), "documented: panics if min > max (NaN bounds included)".into())),
+                (Ok(_), true) if !f(0).is_nan() => {
+                    let x = warp_math::clamp(f(0), f(1), f(2));
+                    if !(f(1) <= x && x <= f(2)) {
+                        o.fails.push(("C19.misc.clamp.out-of-range".into(), format!("{:08x}", x.to_bits())));
+                    }
+                }
+                _ => {}
+            }
+            o.tags.push(if valid { "clamp-valid".into() } else { "clamp-invalid-range".into() });
+        }
+        _ => {
+            if r.is_err() {
+                o.fails.push((format!("C19.misc.panic.{op}"), "conversion panicked".into()));
+            }
+        }
+    }
     Ok(o)
 }
